@@ -23,8 +23,8 @@ The scratch worktree is /tmp/robust-wt (removed at the end unless --keep); all o
 import sys, os, re, json, subprocess, shutil, glob, importlib.util, argparse, time
 
 ROOT = os.path.dirname(os.path.dirname(os.path.abspath(__file__)))
-WT = "/tmp/robust-wt"
-OUT = os.path.join(ROOT, "out", "robust")
+WT = os.environ.get("ROBUST_WT", "/tmp/robust-wt")
+OUT = os.path.join(ROOT, "out", os.environ.get("ROBUST_OUT", "robust"))
 GEN = os.path.join(ROOT, "lean", "Verif", "Gen")
 LEAN = os.path.join(ROOT, "lean")
 ENV = dict(os.environ, GOFLAGS="-mod=mod", GOPROXY="off", GOSUMDB="off", GOTOOLCHAIN="local")
